@@ -109,8 +109,20 @@ def r_land_remainder(rep, f):
         clips, stretched = [], 0
         for a_, parents in tast.find_with_parents(body["body"], lambda z: z.get("k") == "Assign" and z["r"].get("k") == "Binary" and z["r"]["op"] == "Sub"
                                                   and z["r"]["l"].get("k") == "Path" and z["r"]["l"].get("name") == "xend" and z["r"]["r"].get("k") == "Path"):
-            guard = next((p_ for p_ in reversed(parents) if p_.get("k") == "If" and tast.contains(p_["then"], lambda z: z is a_)), None)
-            lits = [float(str(q["v"]).replace("_", "")) for q in tast.find(guard["cond"], lambda z: z.get("k") == "Lit" and z.get("lk") == "Float")] if guard else []
+            guard = next((p_ for p_ in reversed(parents) if p_.get("k") == "If" and (tast.contains(p_["then"], lambda z: z is a_) or (p_.get("else") is not None and tast.contains(p_["else"], lambda z: z is a_)))), None)
+            gc = guard["cond"] if guard else None
+            # a named (and possibly negated) landing test stands for its comparison
+            for _ in range(3):
+                if gc is not None and gc.get("k") == "Unary" and gc.get("op") == "Not":
+                    gc = gc["e"]
+                    continue
+                if gc is not None and gc.get("k") == "Path" and gc.get("res") == "local" and (gc.get("ty") or "") == "bool":
+                    lets_ = tast.find(body["body"], lambda z: z.get("k") == "Let" and z["pat"].get("k") == "PBind" and z["pat"].get("id") == gc.get("id") and z.get("init") is not None)
+                    if len(lets_) == 1:
+                        gc = lets_[0]["init"]
+                        continue
+                break
+            lits = [float(str(q["v"]).replace("_", "")) for q in tast.find(gc, lambda z: z.get("k") == "Lit" and z.get("lk") == "Float")] if gc is not None else []
             if any(v > 1.0 for v in lits):
                 stretched += 1
             else:
@@ -215,6 +227,8 @@ def r_land_exact(rep, f):
                                     prov = ("copy", nd) if (i_.get("k") == "Path" and i_.get("name") == "xend") else ("computed", lets_[0])
                                     break
                                 continue
+                            if r_.get("k") == "Match" and (r_["scrut"].get("ty") or "") == "bool":
+                                r_ = {"k": "If", "then": r_["arms"][0]["body"], "else": r_["arms"][1]["body"] if len(r_["arms"]) > 1 else None}
                             if r_.get("k") == "If":
                                 # x = if last { xend } else { x + h }: on the landing path the flagged branch is a copy
                                 arms_ = [r_["then"], r_.get("else")]
@@ -382,6 +396,17 @@ class CoverMon(mon.Monitor):
                     c = lets[0]["init"]
                     continue
             break
+        if c.get("k") == "Call" and c.get("def") in getattr(self, "helpers", {}):
+            # a private predicate `fn overshoots(x, h, xend, posneg) -> bool { (x + h - xend) * posneg > 0.0 }`
+            hb = self.helpers[c["def"]]
+            tail = hb["body"]
+            while tail is not None and tail.get("k") == "Block" and not tail.get("stmts"):
+                tail = tail.get("tail") if tail.get("tail") is not None else tail.get("expr")
+            if tail is not None and tail.get("k") == "Binary" and tail["op"] in ("Gt", "Ge", "Lt", "Le", "Eq"):
+                me = any(a.get("k") == "Path" and a.get("name") == "xend" for a in c["args"])
+                mv = any(tast.contains(a, lambda z: z.get("k") == "Path" and z.get("id") in self.timevars) for a in c["args"])
+                return me and mv
+            return False
         if c.get("k") != "Binary" or c["op"] not in ("Gt", "Ge", "Lt", "Le", "Eq"):
             return False
         me = tast.contains(c, lambda z: z.get("k") == "Path" and z.get("name") == "xend")
@@ -443,6 +468,7 @@ def r_land_cover(rep, f):
                         changed = True
         xid = None
         m = CoverMon(fn, main, xid, tv, stage_calls)
+        m.helpers = {d_: b_ for d_, b_ in f.bodies.items() if d_.startswith("methods::") and b_.get("params") is not None and "::solve" not in d_}
         mon.Runner(m).run_fn(body)
         for k2, msg, node, trail in m.violations:
             rep.violation("R-LAND-COVER", k2, msg, node.get("sp") if isinstance(node, dict) else None)
